@@ -9,6 +9,8 @@ RULE = ("op `addr <mac|v4|v6> <text>`: the real from_str, Display, and from_str 
         "it back; the reference parsers (Lean, Spec/Rfc.lean) classify every text as standard (must be accepted with that value), wrong group count / out-of-range "
         "group (must be rejected) or neither (only the round trip of whatever was accepted is demanded); IPv6: all 36 positions x lengths of `::`, both cases, "
         "1-4 digit groups; malformed mutations; distinct = distinct op line; non-trivial = the text was accepted")
+NOTES = ["the model is the code after /repo commit d061929 (RFC 4291 `::` anywhere, a lone colon at an end and the empty text refused): v6_accepts_all is proved",
+         "the witness lines of the repaired findings in known_findings.json are run as regression inputs on every check"]
 ASSUMPTIONS = ["standard forms: six two-digit hexadecimal groups separated by ':'; four decimal groups without superfluous zeros separated by '.'; RFC 4291 §2.2 forms 1 and 2",
                "a text with characters other than digits and the separator, with one-digit MAC groups, zero-padded decimal groups, more than four hex digits of value "
                "<= 0xffff, ':::' or a stray single colon next to a complete address is 'neither standard nor required to be rejected'"]
